@@ -1,7 +1,9 @@
 SPECIFICATION Spec
 CONSTANTS
   N = 4
+  NPre = 3
   FmIds = {"domain", "plain", "broken", "partial"}
   EmitIds = {"domain"}
-INVARIANTS FunctionForm A B C Domain BrokenFails EmitInv
+  Rep <- AsCode
+INVARIANTS FunctionForm A B C AR BR Domain Classified FlagLayoutOnly BrokenFails EmitInv
 CHECK_DEADLOCK FALSE
